@@ -100,11 +100,26 @@ class Env:
         raise AssumptionFailed('cut: ' + note)
 
     # ---------------------------------------------------------------- obligations
-    def check(self, label, cond):
+    def lemma(self, label, cond):
+        """An obligation that, once discharged, is available as an assumption to the later obligations of the
+        same path (sound: it was shown to hold under the path condition)."""
+        self.check(label, cond, lemma=True)
+
+    def fact(self, cond, note):
+        """A true mathematical fact the solver cannot derive itself (e.g. an instance of 'Z_p has no zero
+        divisors' for a prime p verified by the harness); recorded in the evidence."""
+        self.assumption_notes.add('fact: ' + note)
+        if self.mode == 'sym':
+            from vf.symx import Ctx, _b
+            Ctx.cur.add_assumption(_b(cond))
+        elif not cond:
+            raise RuntimeError('harness fact is false on concrete values: ' + note)
+
+    def check(self, label, cond, lemma=False):
         if self.mode == 'sym':
             from vf.symx import Ctx, _b
             ctx = Ctx.cur
-            self.goals.append((label, _b(cond), len(ctx.pc), len(ctx.side), len(ctx.assumptions)))
+            self.goals.append((label, _b(cond), len(ctx.pc), len(ctx.side), len(ctx.assumptions), lemma))
         else:
             ok = bool(cond)
             self.observed.append((label + '?', ok))
@@ -188,8 +203,17 @@ class AssumptionFailed(Exception):
 
 # ------------------------------------------------------------------------------------ drivers
 
+class _DictModel:
+    """Model obtained through the bit-vector route: name -> int."""
+
+    def __init__(self, d):
+        self.d = d
+
+
 def _model_values(model, env):
     import z3
+    if isinstance(model, _DictModel):
+        return {n: model.d.get(n, env.vars[n][0]) for n in env.vars}
     vals = {}
     for name in env.vars:
         v = model.eval(z3.Int(name), model_completion=True)
@@ -199,6 +223,8 @@ def _model_values(model, env):
 
 def _eval_obs(model, observed):
     import z3
+    if isinstance(model, _DictModel):
+        return []
     out = []
     for label, v in observed:
         if isinstance(v, z3.ExprRef):
@@ -212,18 +238,79 @@ def _eval_obs(model, observed):
     return out
 
 
-def solve_goal(ctx, goal, n_pc, n_side, n_assm, timeout_ms=None):
+FIRST_TRY_MS = int(os.getenv('VF_FIRST_TRY_MS', '8000'))
+MAX_SPLIT_CASES = 512
+
+
+def _mk_solver(ctx, goal, n_pc, n_assm, timeout_ms, extra=()):
     import z3
     s = z3.Solver()
-    s.set('timeout', timeout_ms or GOAL_TIMEOUT_MS)
+    s.set('timeout', timeout_ms)
     s.add(*ctx.assumptions[:n_assm] if n_assm is not None else ctx.assumptions)
     s.add(*ctx.side)          # definitional extensions: sound to keep all of them
     s.add(*ctx.pc[:n_pc])
+    s.add(*extra)
     s.add(z3.Not(goal))
+    return s
+
+
+def solve_goal(ctx, goal, n_pc, n_side, n_assm, timeout_ms=None, env=None, lemmas=()):
+    """Decide one obligation.  First a plain query; if z3 gives up, a sound case split over the
+    small-domain variables occurring in the goal (all cases must be unsat; any sat case is a model)."""
+    import z3
+    total = timeout_ms or GOAL_TIMEOUT_MS
     t0 = time.time()
+    s = _mk_solver(ctx, goal, n_pc, n_assm, min(FIRST_TRY_MS, total), lemmas)
     r = str(s.check())
-    dt = time.time() - t0
-    return r, (s.model() if r == 'sat' else None), dt, s
+    if r != 'unknown':
+        return r, (s.model() if r == 'sat' else None), time.time() - t0, s, 0
+    # bounded problem over a small domain: bit-blast (sound width inference, see vf/int2bv.py)
+    if env is not None:
+        from vf import int2bv
+        bounds = {n: (lo, hi - 1) for n, (lo, hi) in env.vars.items()}
+        bounds.update(ctx.aux_bounds)
+        rb, mb, W = int2bv.solve_bv(list(s.assertions()), bounds, timeout_ms=total)
+        if rb == 'unsat':
+            return 'unsat', None, time.time() - t0, s, -1
+        if rb == 'sat':
+            return 'sat', _DictModel(mb), time.time() - t0, s, -1
+    # case split
+    doms = {}
+    if env is not None:
+        conj = z3.And(*ctx.pc[:n_pc], *ctx.side, goal)
+        names = {str(v) for v in _free_vars(conj)}
+        for n, (lo, hi) in env.vars.items():
+            if n in names and hi - lo <= 4:
+                doms[n] = (lo, hi)
+    order = sorted(doms, key=lambda n: doms[n][1] - doms[n][0])
+    chosen, ncases = [], 1
+    for n in order:
+        k = doms[n][1] - doms[n][0]
+        if ncases * k > MAX_SPLIT_CASES:
+            break
+        chosen.append(n)
+        ncases *= k
+    if not chosen:
+        s = _mk_solver(ctx, goal, n_pc, n_assm, total, lemmas)
+        r = str(s.check())
+        return r, (s.model() if r == 'sat' else None), time.time() - t0, s, 0
+    import itertools
+    per_case = max(2000, total // 4)
+    nsub = 0
+    verdict = 'unsat'
+    for combo in itertools.product(*[range(*doms[n]) for n in chosen]):
+        pins = [z3.Int(n) == v for n, v in zip(chosen, combo)]
+        sc = _mk_solver(ctx, goal, n_pc, n_assm, per_case, list(pins) + list(lemmas))
+        rc = str(sc.check())
+        nsub += 1
+        if rc == 'sat':
+            return 'sat', sc.model(), time.time() - t0, sc, nsub
+        if rc != 'unsat':
+            verdict = 'unknown'
+        if (time.time() - t0) * 1000 > 6 * total:
+            verdict = 'unknown'
+            break
+    return verdict, None, time.time() - t0, s, nsub
 
 
 def run_sym(fn, params=None, seed=0, max_paths=5000, n_validate=2, goal_timeout_ms=None,
@@ -248,18 +335,25 @@ def run_sym(fn, params=None, seed=0, max_paths=5000, n_validate=2, goal_timeout_
     except Exception as e:
         res.update(status='error', error=f'{type(e).__name__}: {e}\n{traceback.format_exc()[-2500:]}')
         return _finish(res, env, t_start, dict(paths=0, aborted=0, queries=0, solver_time=0, decisions=0, complete=False))
-    seen = set()
+    seen = {}
     rnd = random.Random(seed)
     val_paths = list(range(len(records)))
     rnd.shuffle(val_paths)
     val_paths = set(val_paths[:n_validate])
     for pi, (ctx, (goals, observed)) in enumerate(records):
-        for label, goal, n_pc, n_side, n_assm in goals:
-            key = (label, z3.And(*ctx.pc[:n_pc], *ctx.assumptions[:n_assm], goal).hash(), n_pc)
+        proved = []
+        for label, goal, n_pc, n_side, n_assm, is_lemma in goals:
+            key = (label, z3.And(*ctx.pc[:n_pc], *ctx.assumptions[:n_assm], *proved, goal).hash(), n_pc)
             if key in seen:
+                if is_lemma and seen[key] == 'unsat':
+                    proved.append(goal)
                 continue
-            seen.add(key)
-            r, model, dt, s = solve_goal(ctx, goal, n_pc, n_side, n_assm, goal_timeout_ms)
+            r, model, dt, s, nsub = solve_goal(ctx, goal, n_pc, n_side, n_assm, goal_timeout_ms, env, proved)
+            seen[key] = r
+            if is_lemma and r == 'unsat':
+                proved.append(goal)
+            res['split_queries'] = res.get('split_queries', 0) + max(nsub, 0)
+            res['bv_queries'] = res.get('bv_queries', 0) + (1 if nsub == -1 else 0)
             res['goals'] += 1
             res['solver_time'] += dt
             res[r] = res.get(r, 0) + 1
@@ -351,7 +445,7 @@ def _free_vars(e):
 def _finish(res, env, t_start, stats):
     res.update(paths=stats['paths'], aborted=stats['aborted'], feas_queries=stats['queries'],
                feas_time=round(stats['solver_time'], 3), decisions=stats['decisions'],
-               complete=stats['complete'], wall=round(time.time() - t_start, 3),
+               complete=stats['complete'], feas_unknown=stats.get('feas_unknown', 0), wall=round(time.time() - t_start, 3),
                functions=env.functions, shims=sorted(env.shims), stubs=sorted(env.stubs),
                assumptions=sorted(env.assumption_notes), nvars=len(env.vars),
                cuts=env.counters.get('cuts', 0))
